@@ -7,7 +7,7 @@
    clause "no (local, remote) pair is listed twice" is refuted by one exotic history (known finding
    C06.no_duplicate_pairs.two_prflx_superseded; witness on the model: Findings/F_C06_two_prflx.v). *)
 From Coq Require Import ZArith Bool List.
-From Ice Require Import Model.AgentTypes Model.AgentCore Gen.Consts Proofs.AgentFrame Proofs.AgentC06 Proofs.AgentC03Sel Proofs.AgentLoc Proofs.AgentRem.
+From Ice Require Import Model.AgentTypes Model.AgentCore Gen.Consts Proofs.AgentFrame Proofs.AgentC06 Proofs.AgentC03Sel Proofs.AgentLoc Proofs.AgentRem Proofs.AgentRemOK.
 Import ListNotations.
 Local Open Scope Z_scope.
 
@@ -81,3 +81,31 @@ Print Assumptions C06_pairs_from_current_locals_partial.
 Theorem C06_pairs_from_current_remotes_step : forall cfg s o, op_ok o s -> Rc s -> Rc (fst (step cfg s o)).
 Proof. exact step_Rc. Qed.
 Print Assumptions C06_pairs_from_current_remotes_step.
+
+(* "Remote candidates are deduplicated, never include TCP-active candidates or addresses rejected by the remote IP
+   filter (peer-reflexive discoveries included)": for EVERY history of the agent core, with no side condition. *)
+Theorem C06_remotes_acceptable_and_deduplicated_all_histories : forall cfg lu lp ops,
+  let s := fst (run cfg lu lp ops) in
+  Forall (fun c => accepts_remote cfg c = true /\ c_tcp c <> TCPTypeActive) (s_remotes s) /\
+  ForallOrdPairs (fun a b => cand_equal a b = false) (s_remotes s).
+Proof. exact remotes_acceptable_and_deduplicated. Qed.
+Print Assumptions C06_remotes_acceptable_and_deduplicated_all_histories.
+
+(* the same, as an invariant of one operation from ANY state satisfying it *)
+Theorem C06_remotes_invariant_step : forall cfg o s, RK cfg s -> RK cfg (fst (step cfg s o)).
+Proof. intros cfg o s H. exact (proj2 (step_RK cfg o s H)). Qed.
+Print Assumptions C06_remotes_invariant_step.
+
+(* non-vacuity: a TCP-active candidate, a filtered address, a duplicate and a filtered peer-reflexive source are all
+   refused; the accepted ones are there *)
+Example C06_example_remote_filtering :
+  let cfg := mkConfig false 5 7 5000000000 false 25000000000 2000000000 0 0 0 0 [3232235778] false false 1 in
+  let l := mkCand 1 CandidateTypeHost NetworkTypeUDP4 (mkAddr false 167772161 5000) TCPTypeUnspecified 2130706431 1 None in
+  let r h ip tcp := mkCand h CandidateTypeHost NetworkTypeUDP4 (mkAddr false ip 6000) tcp 2130706431 1 None in
+  let req := mkMsg 0 1 77 (Some (1, 3)) (Some 2) false (Some (true, 9)) (Some 100) None None None in
+  let s := fst (run cfg 1 2 [AddLocal l; Start false 3 4; AddRemote (r 2 3232235777 TCPTypeUnspecified);
+                             AddRemote (r 3 3232235777 TCPTypeUnspecified); AddRemote (r 4 3232235778 TCPTypeUnspecified);
+                             AddRemote (r 5 3232235779 TCPTypeActive);
+                             InStun 1 (mkAddr false 3232235778 7000) req; InStun 1 (mkAddr false 3232235780 7000) req]) in
+  map (fun c => a_ip (c_addr c)) (s_remotes s) = [3232235777; 3232235780].
+Proof. vm_compute. reflexivity. Qed.
